@@ -101,6 +101,7 @@ class FinishedPdu(AbstractFileDirectiveBase):
     @condition_code.setter
     def condition_code(self, condition_code: ConditionCode):
         self._params.condition_code = condition_code
+        self._calculate_directive_field_len()
 
     @property
     def delivery_code(self) -> DeliveryCode:
@@ -170,7 +171,8 @@ class FinishedPdu(AbstractFileDirectiveBase):
 
     def _calculate_directive_field_len(self):
         base_len = 1
-        if self.fault_location is None:
+        # The fault location is only packed for condition codes which may carry one.
+        if self.fault_location is None or not self.might_have_fault_location:
             fault_loc_len = 0
         else:
             fault_loc_len = self.fault_location_len
